@@ -740,71 +740,85 @@ func ruleR86(c *Ctx) {
 				})
 			}
 		}
-		// resets in the report handler: assignments of a constant / nil to a tested field
-		type reset struct {
-			fv *types.Var
-			at *ast.AssignStmt
-		}
-		var resets []reset
-		for _, st := range h.Body {
-			inspectNoLit(st, func(nd ast.Node) bool {
-				as, ok := nd.(*ast.AssignStmt)
-				if !ok || len(as.Lhs) != 1 || len(as.Rhs) != 1 {
-					return true
-				}
-				fv := fieldOf(in, as.Lhs[0])
-				if fv == nil || !tested[fv] {
-					return true
-				}
-				if isNilIdent(as.Rhs[0]) || in.Types[as.Rhs[0]].Value != nil {
-					resets = append(resets, reset{fv, as})
-				}
-				return true
-			})
-		}
-		if len(resets) == 0 {
-			continue
-		}
-		g := p.Graph(f)
-		region := regionOfStmts(h.Body)
-		// start: the statement that consumes the report (clears the probing slot), else the handler entry
-		var start ast.Node
-		for _, st := range h.Body {
-			inspectNoLit(st, func(nd ast.Node) bool {
-				if as, ok := nd.(*ast.AssignStmt); ok && len(as.Lhs) == 1 && len(as.Rhs) == 1 && isNilIdent(as.Rhs[0]) {
-					if fv := fieldOf(in, as.Lhs[0]); fv != nil && replySlotKind(fv.Type()) != "" && start == nil {
-						start = as
-					}
-				}
-				if call, ok := nd.(*ast.CallExpr); ok && isBuiltin(in, call, "delete") && len(call.Args) == 2 && start == nil {
-					if fv := fieldOf(in, call.Args[0]); fv != nil && replySlotKind(fv.Type()) != "" {
-						start = p.Parent(call)
-					}
-				}
-				return true
-			})
-		}
-		if start == nil {
-			continue
-		}
-		spt, ok := g.PointOf(start)
-		if !ok {
-			continue
-		}
-		seen := map[*types.Var]bool{}
-		for _, r := range resets {
-			if seen[r.fv] {
-				continue
+		analyse := func(f *FuncInfo, hbody []ast.Stmt) bool {
+			in := info(f)
+			// resets in the report handler: assignments of a constant / nil to a tested field
+			type reset struct {
+				fv *types.Var
+				at *ast.AssignStmt
 			}
-			seen[r.fv] = true
-			fv := r.fv
-			bad := g.RegionPaths(spt, region, func(nd ast.Node) bool {
-				return exprMentions(nd, func(z ast.Node) bool {
-					as, ok := z.(*ast.AssignStmt)
-					return ok && len(as.Lhs) == 1 && fieldOf(in, as.Lhs[0]) == fv
+			var resets []reset
+			for _, st := range hbody {
+				inspectNoLit(st, func(nd ast.Node) bool {
+					as, ok := nd.(*ast.AssignStmt)
+					if !ok || len(as.Lhs) != 1 || len(as.Rhs) != 1 {
+						return true
+					}
+					fv := fieldOf(in, as.Lhs[0])
+					if fv == nil || !tested[fv] {
+						return true
+					}
+					if isNilIdent(as.Rhs[0]) || in.Types[as.Rhs[0]].Value != nil {
+						resets = append(resets, reset{fv, as})
+					}
+					return true
 				})
-			})
-			c.Check(len(bad) == 0, f, r.at, "reset of "+fv.Name()+" after a consumed probe report", what, ifElse(len(bad) == 0, "every path from the consumption of the report to the end of the handler assigns "+fv.Name(), "a path leaves the handler without resetting "+fv.Name()+": "+witnessLines(g, bad[:min(1, len(bad))])))
+			}
+			if len(resets) == 0 {
+				return false
+			}
+			g := p.Graph(f)
+			region := regionOfStmts(hbody)
+			// start: the statement that consumes the report (clears the probing slot), else the handler entry
+			var start ast.Node
+			for _, st := range hbody {
+				inspectNoLit(st, func(nd ast.Node) bool {
+					if as, ok := nd.(*ast.AssignStmt); ok && len(as.Lhs) == 1 && len(as.Rhs) == 1 && isNilIdent(as.Rhs[0]) {
+						if fv := fieldOf(in, as.Lhs[0]); fv != nil && replySlotKind(fv.Type()) != "" && start == nil {
+							start = as
+						}
+					}
+					if call, ok := nd.(*ast.CallExpr); ok && isBuiltin(in, call, "delete") && len(call.Args) == 2 && start == nil {
+						if fv := fieldOf(in, call.Args[0]); fv != nil && replySlotKind(fv.Type()) != "" {
+							start = p.Parent(call)
+						}
+					}
+					return true
+				})
+			}
+			if start == nil {
+				return false
+			}
+			spt, ok := g.PointOf(start)
+			if !ok {
+				return false
+			}
+			seen := map[*types.Var]bool{}
+			for _, r := range resets {
+				if seen[r.fv] {
+					continue
+				}
+				seen[r.fv] = true
+				fv := r.fv
+				bad := g.RegionPaths(spt, region, func(nd ast.Node) bool {
+					return exprMentions(nd, func(z ast.Node) bool {
+						as, ok := z.(*ast.AssignStmt)
+						return ok && len(as.Lhs) == 1 && fieldOf(in, as.Lhs[0]) == fv
+					})
+				})
+				c.Check(len(bad) == 0, f, r.at, "reset of "+fv.Name()+" after a consumed probe report", what, ifElse(len(bad) == 0, "every path from the consumption of the report to the end of the handler assigns "+fv.Name(), "a path leaves the handler without resetting "+fv.Name()+": "+witnessLines(g, bad[:min(1, len(bad))])))
+			}
+			return true
+		}
+		if !analyse(f, h.Body) {
+			// the handling was moved into a helper method: its body is the handler
+			for _, st := range h.Body {
+				for _, cl := range callsIn(st) {
+					if cf := p.byObj[callee(in, cl)]; cf != nil && cf.Pkg == f.Pkg && cf.Body != nil && cf.Obj != nil && f.Root().Obj != nil && recvNamed(cf.Obj) != nil && recvNamed(cf.Obj) == recvNamed(f.Root().Obj) {
+						analyse(cf, cf.Body.List)
+					}
+				}
+			}
 		}
 	}
 }
